@@ -28,6 +28,52 @@ func vFill(c *Command) {
 	}
 }
 
+// vText instantiates a template: every "?" token becomes a fresh symbolic
+// 2-letter word, everything else is kept (lower-case ASCII words, single spaces).
+var (
+	vConcreteWords bool // when set, "?" becomes a fixed fresh word instead of a symbolic one
+	vFreshCounter  int
+)
+
+func vFresh() string {
+	vFreshCounter++
+	return string([]byte{'z', byte('a' + vFreshCounter%26)})
+}
+
+func vText(name, tmpl string) string {
+	if tmpl == "" {
+		return ""
+	}
+	parts := strings.Split(tmpl, " ")
+	for i, p := range parts {
+		if p == "?" {
+			if vConcreteWords {
+				parts[i] = vFresh()
+			} else {
+				parts[i] = vWord(name, 2)
+			}
+		}
+	}
+	return strings.Join(parts, " ")
+}
+
+// vCmd builds a command from templates (keywords / tags: comma-separated lists of templates).
+func vCmd(cmd, desc, kws, tags string) Command {
+	c := Command{Command: vText("cmd", cmd), Description: vText("desc", desc)}
+	if kws != "" {
+		for _, k := range strings.Split(kws, ",") {
+			c.Keywords = append(c.Keywords, vText("kw", k))
+		}
+	}
+	if tags != "" {
+		for _, k := range strings.Split(tags, ",") {
+			c.Tags = append(c.Tags, vText("tag", k))
+		}
+	}
+	vFill(&c)
+	return c
+}
+
 // vSmallDB builds n commands whose fields are made of 2-letter symbolic words:
 // command = 1 word, description = 2 words, keywords = 1 word, no tags, no platform.
 func vSmallDB(n int) *Database {
